@@ -191,6 +191,7 @@ def make(kind, seed, world, ip, tap, reach):
                 what = f'rekey selectors narrowed ({which})'
             elif kind == 'widen_response':
                 which = r.choice(['tsi', 'tsr', 'both'])
+                honest = {'tsi': copy.deepcopy(tsi['selectors']), 'tsr': copy.deepcopy(tsr['selectors'])}
                 for name, p in (('tsi', tsi), ('tsr', tsr)):
                     if which in (name, 'both') and p['selectors']:
                         sel = p['selectors'][0]
@@ -230,6 +231,13 @@ def make(kind, seed, world, ip, tap, reach):
                     count('byz.widen_still_inside_offer')
                     return None
                 what = f'selectors widened ({which})'
+                if r.random() < 0.35:
+                    # the answer of the honest responder is listed behind the wide selector: what is installed is the first one
+                    for name, p in (('tsi', tsi), ('tsr', tsr)):
+                        if which in (name, 'both') and p['selectors']:
+                            p['selectors'] = [p['selectors'][0]] + honest[name]
+                    count('byz.widen_honest_listed_behind')
+                    what = f'selectors widened ({which}, the honest selector listed behind the wide one)'
             else:
                 if flip_rekeys_only and (req is None or not any(p['type'] == R.P_NOTIFY and p['ntype'] == R.N_REKEY_SA for p in req['payloads'])):
                     return None          # half of the runs leave the CHILD_SAs come into being and tamper only with the answers to rekeys
